@@ -456,6 +456,14 @@ fn gen_cells(out: &mut Out, rng: &mut Rng, thorough: bool, prop: &str) {
         gen_pushbits(out, rng, thorough);
     }
     if prop == "C01" {
+        let caps = caps();
+        for v in 0..(if thorough { 10 } else { 5 }) {
+            for (inp, e, md, _, b, _) in find_ties(rng, &caps, v, if thorough { 600 } else { 150 }, if thorough { 20 } else { 4 }) {
+                let i2 = inp.clone();
+                out.job(move || build_line(&i2, Opts { ecl: Some(e), mode: Some(md), version: Some(v), mask: None }));
+                out.job(move || build_line(&inp, Opts { ecl: Some(e), mode: Some(md), version: Some(v), mask: Some(b) }));
+            }
+        }
         crate::unitops::gen_place(out, rng, thorough);
         crate::unitops::gen_xref(out, rng, thorough);
     }
@@ -528,8 +536,30 @@ fn gen_cells(out: &mut Out, rng: &mut Rng, thorough: bool, prop: &str) {
 }
 
 /// C03 / C15: geometry and labels must not depend on payload, level or mask.
+/// `buildafter <hex> e m v k <vbig> => …` : `build` on a thread that has just built a symbol of version `vbig`
+/// (nothing of an earlier, larger symbol may survive in a later one — inside or outside its square)
+pub fn buildafter_line(input: &[u8], o: Opts, vbig: usize) -> String {
+    let _ = build(b"0", Opts { ecl: Some(0), mode: None, version: Some(vbig), mask: None });
+    let r = build(input, o);
+    format!(
+        "buildafter {} {} {} {} {} {} => {}",
+        hex(input), opt(o.ecl), opt(o.mode), opt(o.version), opt(o.mask), vbig, outcome_full(&r)
+    )
+}
+
 fn gen_geometry(out: &mut Out, rng: &mut Rng, thorough: bool) {
     let caps = caps();
+    for v in 0..40usize {
+        for _ in 0..(if thorough { 4 } else { 1 }) {
+            let e = rng.below(4);
+            let m = rng.below(3);
+            let len = rng.range(0, caps[m][e][v]);
+            let inp = content_class(rng, m, len, 0);
+            let o = Opts { ecl: Some(e), mode: Some(m), version: Some(v), mask: if rng.chance(1, 2) { Some(rng.below(8)) } else { None } };
+            let vbig = if rng.chance(1, 2) { 39 } else { rng.range(v, 39) };
+            out.job(move || buildafter_line(&inp, o, vbig));
+        }
+    }
     for v in 0..40usize {
         let cells: Vec<(usize, Option<usize>)> = if thorough {
             let mut c = Vec::new();
@@ -577,6 +607,16 @@ fn gen_c04(out: &mut Out, rng: &mut Rng, thorough: bool) {
                     let o = Opts { ecl: Some(e), mode, version: Some(v), mask: Some(k) };
                     out.job(move || build_line(&inp, o));
                 }
+            }
+        }
+    }
+    // automatic mask selection on payloads where two candidates TIE at the minimum: the mask in the format
+    // information, the reported mask and the mask physically applied must still be one and the same
+    for v in 0..(if thorough { 12 } else { 6 }) {
+        for (inp, e, md, _, _, at_min) in find_ties(rng, &caps, v, if thorough { 1500 } else { 300 }, if thorough { 30 } else { 6 }) {
+            if at_min {
+                let o = Opts { ecl: Some(e), mode: Some(md), version: Some(v), mask: None };
+                out.job(move || build_line(&inp, o));
             }
         }
     }
@@ -829,6 +869,42 @@ pub fn pair_line(input: &[u8], e: usize, md: usize, v: usize, a: usize, b: usize
     format!("pair {} {} {} {} {} {} => {} | {}", hex(input), e, md, v, a, b, outcome_full(&oa), outcome_full(&ob))
 }
 
+/// payloads (short, version `v` forced) for which two mask candidates have EQUAL penalty — found by recording an automatic
+/// build; ties at the minimum first. Returns (input, level, mode, mask a, mask b, tie is at the minimum).
+pub fn find_ties(rng: &mut Rng, caps: &[Vec<Vec<usize>>], v: usize, tries: usize, want: usize) -> Vec<(Vec<u8>, usize, usize, usize, usize, bool)> {
+    let mut at_min = Vec::new();
+    let mut other = Vec::new();
+    for _ in 0..tries {
+        let e = rng.below(4);
+        let md = rng.below(3);
+        let len = rng.range(0, caps[md][e][v].min(40));
+        let inp = content(rng, md, len);
+        h::recorder_start();
+        let _ = build(&inp, Opts { ecl: Some(e), mode: Some(md), version: Some(v), mask: None });
+        let cands = h::recorder_take();
+        let best = cands.iter().map(|c| c.score).min().unwrap_or(0);
+        let tied: Vec<usize> = cands.iter().filter(|c| c.score == best).map(|c| c.mask as usize).collect();
+        if tied.len() >= 2 {
+            at_min.push((inp, e, md, tied[0], tied[1], true));
+        } else {
+            'o: for a in 0..cands.len() {
+                for b in (a + 1)..cands.len() {
+                    if cands[a].score == cands[b].score {
+                        other.push((inp.clone(), e, md, cands[a].mask as usize, cands[b].mask as usize, false));
+                        break 'o;
+                    }
+                }
+            }
+        }
+        if at_min.len() >= want {
+            break;
+        }
+    }
+    at_min.extend(other);
+    at_min.truncate(want);
+    at_min
+}
+
 fn gen_c08(out: &mut Out, rng: &mut Rng, thorough: bool) {
     for v in 0..40 {
         for m in 0..8 {
@@ -841,38 +917,8 @@ fn gen_c08(out: &mut Out, rng: &mut Rng, thorough: bool) {
     // forced masks whose penalty TIES with another mask's (found with the recorder on an automatic build): a symbol
     // forced to the later of two tied masks must still be masked with it (small symbols tie most often)
     for v in 0..(if thorough { 12 } else { 6 }) {
-        let mut found = 0;
-        for _ in 0..(if thorough { 600 } else { 120 }) {
-            let e = rng.below(4);
-            let md = rng.below(3);
-            let len = rng.range(0, caps[md][e][v].min(24));
-            let inp = content(rng, md, len);
-            h::recorder_start();
-            let _ = build(&inp, Opts { ecl: Some(e), mode: Some(md), version: Some(v), mask: None });
-            let cands = h::recorder_take();
-            let best = cands.iter().map(|c| c.score).min().unwrap_or(0);
-            let tied: Vec<usize> = cands.iter().filter(|c| c.score == best).map(|c| c.mask as usize).collect();
-            let any_tie: Vec<(usize, usize)> = if tied.len() >= 2 {
-                vec![(tied[0], tied[1])]
-            } else {
-                let mut t = Vec::new();
-                'o: for a in 0..cands.len() {
-                    for b in (a + 1)..cands.len() {
-                        if cands[a].score == cands[b].score {
-                            t.push((cands[a].mask as usize, cands[b].mask as usize));
-                            break 'o;
-                        }
-                    }
-                }
-                t
-            };
-            for (a, b) in any_tie {
-                if found < (if thorough { 40 } else { 8 }) {
-                    found += 1;
-                    let i2 = inp.clone();
-                    out.job(move || pair_line(&i2, e, md, v, a.min(b), a.max(b)));
-                }
-            }
+        for (inp, e, md, a, b, _) in find_ties(rng, &caps, v, if thorough { 600 } else { 120 }, if thorough { 40 } else { 8 }) {
+            out.job(move || pair_line(&inp, e, md, v, a.min(b), a.max(b)));
         }
     }
     let versions: Vec<usize> = if thorough { (0..40).collect() } else { vec![0, 1, 6, 13, 26, 39] };
@@ -965,6 +1011,14 @@ fn gen_c11(out: &mut Out, rng: &mut Rng, thorough: bool) {
     crate::unitops::gen_aligned(out, rng, thorough, true);
     gen_selecth(out, rng, thorough);
     let caps = caps();
+    // payloads where two candidates tie (at the minimum first): the selection among equals
+    for v in 0..(if thorough { 10 } else { 5 }) {
+        for (inp, e, md, _, b, _) in find_ties(rng, &caps, v, if thorough { 600 } else { 150 }, if thorough { 20 } else { 5 }) {
+            let i2 = inp.clone();
+            out.job(move || select_line(&i2, e, md, v, None));
+            out.job(move || select_line(&inp, e, md, v, Some(b)));
+        }
+    }
     let cells: Vec<(usize, usize)> = if thorough {
         (0..40).flat_map(|v| (0..4).map(move |e| (v, e))).collect()
     } else {
